@@ -233,6 +233,9 @@ CrUpdate(NE, NI) ==
                         => y.p = q)
     \* ---- C03: nothing is taken from a pod that still exists or whose teardown is not reported
     /\ G("C03", \A x \in Bound(crI) : (~Kept(x, NI) \/ Marked(x, NE, NI)) => Reclaimable(x))
+    \* ---- C08: the record forgets an address it had marked for deletion only once the cloud no longer has it
+    /\ G("C08", \A x \in crI : x.st = "Deleting" /\ HasEni(NE, x.e) /\ cloud[x.e].on /\ ~(\E y \in NI : y.e = x.e /\ y.a = x.a)
+                      => x.a \notin Addrs(x.e))
     \* ---- C08: an interface created since the last published record and still existing is recorded (in use or for deletion)
     /\ G("C08", wr # "fail" => \A x \in fresh : x[2] = 0 /\ cloud[x[1]].on => HasEni(NE, x[1]))
     /\ crE' = NE /\ crI' = NI
@@ -318,6 +321,11 @@ DriftAdd(e, a) ==
     /\ cloud[e].on
     /\ cloud' = [cloud EXCEPT ![e] = IF Fam(a) = 4 THEN [@ EXCEPT !.v4 = @ \cup {a}] ELSE [@ EXCEPT !.v6 = @ \cup {a}]]
     /\ UNCHANGED <<conf, crE, crI, pods, rt, up, given, delp, told, absent, seen, rg, fresh, wr, healthy>>
+
+(* The node's configuration was changed (e.g. switched to dual stack while pods are running). *)
+ConfChange(c) ==
+    /\ conf' = c
+    /\ UNCHANGED <<cloud, crE, crI, pods, rt, up, given, delp, told, absent, seen, rg, fresh, wr, healthy>>
 
 (* ------------------------------------------------------------------ observations after the drain *)
 
